@@ -11,6 +11,73 @@ from mirsmt.values import Cell, Lazy, Adt, Ref, Obj, UNIT, bv
 from mirsmt.interp import Inconclusive, PathEnd
 
 
+def real_args(chk, ex_, M, builder=None, cli=None):
+    """Execute the real prefix of `<runner::Basic as Runner>::run` on the current path with the given builder / CLI
+    settings (field name -> value; everything else unconstrained) and return the argument lists the REAL code hands to
+    `insert_features` and `execute`: {'insert_features': [...], 'execute': [...]} (positional, as at the call sites).
+    Harnesses that drive those two functions take `cli`, `fail_fast`, `max_concurrent_scenarios` from here, so that a
+    change of where the options are merged is followed instead of being assumed."""
+    prog = chk.prog
+    t = prog.tables
+    cands = [b for (st, m), lst in prog.by_method.items() if st == 'Basic' and m == 'run' for tr, b in lst if tr == 'Runner']
+    if len(cands) != 1:
+        raise Inconclusive('<Basic as Runner>::run: %d candidates' % len(cands))
+    BF = t.struct_fields('runner::basic::Basic<W>')
+    CF = t.struct_fields('runner::basic::Cli')
+    if not isinstance(BF, list) or not isinstance(CF, list):
+        raise Inconclusive('Basic / Cli field tables')
+    builder, cli = dict(builder or {}), dict(cli or {})
+    for k in builder:
+        if k not in BF:
+            raise Inconclusive('runner::Basic has no field %s' % k)
+    for k in cli:
+        if k not in CF:
+            raise Inconclusive('runner::basic::Cli has no field %s' % k)
+    none = lambda ty: Adt(ty, {}, 0)  # noqa
+    bdef = {'max_concurrent_scenarios': none('Option<usize>'), 'retries': none('Option<usize>'), 'retry_after': none('Option<Duration>'),
+            'retry_filter': none('Option<TagOperation>'), 'fail_fast': z3.BoolVal(False)}
+    cdef = {'concurrency': none('Option<usize>'), 'fail_fast': z3.BoolVal(False), 'retry': none('Option<usize>'),
+            'retry_after': none('Option<Duration>'), 'retry_tag_filter': none('Option<TagOperation>')}
+    fields = {(None, i): builder.get(n, bdef.get(n, Lazy('?', 'self.%s' % n))) for i, n in enumerate(BF)}
+    cfields = {(None, i): cli.get(n, cdef.get(n, Lazy('?', 'cli.%s' % n))) for i, n in enumerate(CF)}
+    selfv = Adt('runner::basic::Basic<W>', fields)
+    cliv = Adt('runner::basic::Cli', cfields)
+    saved = {k: M.table.get(k) for k in ('insert_features', 'execute', 'future::join', 'Clone::clone')}
+    saved_opaque = set(M.opaque_bodies)
+    got = {}
+
+    def rec(name):
+        def f(ex2, info, a, dty):
+            got.setdefault(name, []).append(list(a))
+            return Lazy(dty or '?', 'future.' + name)
+        return f
+
+    def stop(ex2, info, a, dty):
+        raise PathEnd('stop', 'both futures constructed')
+    M.table['insert_features'] = rec('insert_features')
+    M.table['execute'] = rec('execute')
+    M.table['future::join'] = stop
+    M.table['Clone::clone'] = lambda ex2, info, a, dty: Lazy(dty or '?', 'clone')
+    M.opaque_bodies |= {'Default::default', 'Clone::clone'}
+    try:
+        try:
+            ex_.call_body(cands[0], [selfv, Lazy('S', 'features_stream'), cliv])
+        except PathEnd as e:
+            if e.kind != 'stop':
+                raise
+    finally:
+        for k, v in saved.items():
+            if v is None:
+                M.table.pop(k, None)
+            else:
+                M.table[k] = v
+        M.opaque_bodies.clear()
+        M.opaque_bodies |= saved_opaque
+    if len(got.get('insert_features', [])) != 1 or len(got.get('execute', [])) != 1:
+        raise Inconclusive('<Basic as Runner>::run constructs insert_features %d times, execute %d times' % (len(got.get('insert_features', [])), len(got.get('execute', []))))
+    return {'insert_features': got['insert_features'][0], 'execute': got['execute'][0]}
+
+
 def obligations(chk, prop, which=('retry', 'retry_after', 'retry_filter', 'concurrency', 'fail_fast')):
     prog = chk.prog
     t = prog.tables
@@ -40,8 +107,12 @@ def obligations(chk, prop, which=('retry', 'retry_after', 'retry_filter', 'concu
         if place is None or not place.startswith('_'):
             raise Inconclusive('%s has no parameter %s' % (b.name, name))
         return int(place[1:]) - 1
-    I_CLI, I_FF = pidx(bif[0], 'cli'), pidx(bif[0], 'fail_fast')
-    E_CONC, E_FF = pidx(bex[0], 'max_concurrent_scenarios'), pidx(bex[0], 'fail_fast')
+    def pidx_opt(b, name):
+        place = b.debug.get(name)
+        return int(place[1:]) - 1 if place is not None and place.startswith('_') and place[1:].isdigit() and int(place[1:]) <= len(b.params) else None
+    # the carrier of a setting is the parameter of that name while it exists, else the field of the `cli` the callee gets
+    I_CLI, I_FF = pidx(bif[0], 'cli'), pidx_opt(bif[0], 'fail_fast')
+    E_CONC, E_FF, E_CLI = pidx_opt(bex[0], 'max_concurrent_scenarios'), pidx_opt(bex[0], 'fail_fast'), pidx_opt(bex[0], 'cli')
 
     ex, M = chk.new_exec(loop_bound=4)
     v = {}
@@ -150,10 +221,18 @@ def obligations(chk, prop, which=('retry', 'retry_after', 'retry_filter', 'concu
             refute(ob('retry_after=cli-else-builder'), opt_is(ex_.field_of(cli_out, None, C['retry_after'], 'Option<Duration>'), 'c.after', 'b.after', scalar('c.after', 'b.after')))
         if 'retry_filter' in which:
             refute(ob('retry_tag_filter=cli-else-builder'), opt_is(ex_.field_of(cli_out, None, C['retry_tag_filter'], 'Option<TagOperation>'), 'c.filter', 'b.filter', filt_eq))
+        def carrier(call, pi, cli_i, field, ty):
+            if pi is not None:
+                return call['args'][pi]
+            if cli_i is None:
+                raise Inconclusive('no carrier for %s' % field)
+            return ex_.field_of(ex_.materialize(call['args'][cli_i]), None, C[field], ty)
         if 'concurrency' in which:
-            refute(ob('concurrency=cli-else-builder'), opt_is(exe[0]['args'][E_CONC], 'c.conc', 'b.conc', scalar('c.conc', 'b.conc')))
+            refute(ob('concurrency=cli-else-builder'), opt_is(carrier(exe[0], E_CONC, E_CLI, 'concurrency', 'Option<usize>'), 'c.conc', 'b.conc', scalar('c.conc', 'b.conc')))
         if 'fail_fast' in which:
-            refute(ob('fail_fast=cli-or-builder'), z3.And(ins[0]['args'][I_FF] == z3.Or(cff, bff), exe[0]['args'][E_FF] == z3.Or(cff, bff)))
+            i_ff = ex_.materialize(carrier(ins[0], I_FF, I_CLI, 'fail_fast', 'bool'), 'bool')
+            e_ff = ex_.materialize(carrier(exe[0], E_FF, E_CLI, 'fail_fast', 'bool'), 'bool')
+            refute(ob('fail_fast=cli-or-builder'), z3.And(i_ff == z3.Or(cff, bff), e_ff == z3.Or(cff, bff)))
     ex.explore(run, on_end)
     bad = [o for o in obs.values() if o.verdict == 'violated']
     if bad:
